@@ -152,7 +152,7 @@ Definition upd (s : bstate) (c p b k : N) (f : bool) (hi lo : N) : bstate :=
 
 Definition bstep (s : bstate) (o : op) (a : banswer) : option bstate :=
   match o with
-  | Sent bytes app =>
+  | Sent bytes app _ =>
       if negb (bytes =? 0) && (u32_max <? bbif s + bytes) then None else
       Some {| bmds := bmds s; bcwnd := bcwnd s; bprior := bprior s; bbif := bbif s + bytes;
               bkind := bkind s; bfilled := bfilled s; bhi := bhi s; blo := blo s;
@@ -210,13 +210,14 @@ Definition bstep (s : bstate) (o : op) (a : banswer) : option bstate :=
               bdeliv := bdeliv s; blost := blost s;
               bapp := match bapp s with Some x => Some (x - bytes) | None => None end;
               brec := clear_req_b (brec s); bq := q'; blast := blast s |}
+  | RttUpd _ _ _ => Some s            (* only initialises the pacing rate *)
   | Nop => Some s
   end.
 
 (* the harness keeps its own packet queue: a send enqueues (bytes, now) and records the time *)
 Definition note_sent (s : bstate) (o : op) (now : N) : bstate :=
   match o with
-  | Sent bytes _ =>
+  | Sent bytes _ _ =>
       {| bmds := bmds s; bcwnd := bcwnd s; bprior := bprior s; bbif := bbif s;
          bkind := bkind s; bfilled := bfilled s; bhi := bhi s; blo := blo s;
          bdeliv := bdeliv s; blost := blost s; bapp := bapp s; brec := brec s;
@@ -276,7 +277,7 @@ Record bj := mkBJ { bjm : N; bjb : N }.
 
 Definition bjvalid (j : bj) (o : op) : bool :=
   match o with
-  | Sent bytes _ => (bytes =? 0) || (bjb j + bytes <=? u32_max)
+  | Sent bytes _ _ => (bytes =? 0) || (bjb j + bytes <=? u32_max)
   | Ack bytes _ _ => bytes <=? bjb j
   | Lost bytes _ _ => negb (bytes =? 0) && (bytes <=? bjb j)
   | Discard bytes => bytes <=? bjb j
@@ -286,7 +287,7 @@ Definition bjvalid (j : bj) (o : op) : bool :=
 Definition bjstep (j : bj) (o : op) (w b : N) : bool * bj :=
   let m' := match o with Mtu m => m | _ => bjm j end in
   let b' := match o with
-            | Sent bytes _ => bjb j + bytes
+            | Sent bytes _ _ => bjb j + bytes
             | Ack bytes _ _ | Lost bytes _ _ | Discard bytes => bjb j - bytes
             | _ => bjb j
             end in
